@@ -52,8 +52,19 @@ func genFiles(rng *rand.Rand, n int, maxSize int64) []wsFile {
 // writeFiles puts the files into the outgoing directory with increasing mtimes
 func (w *world) writeFiles(files []wsFile) {
 	base := time.Now().Add(-time.Duration(len(files)+5) * time.Minute)
+	// one run in three has a backlog: the first j files were written hours or days ago
+	// (their modification times lie on earlier calendar days, at any time of day)
+	backlog, old := 0, time.Duration(0)
+	if w.rng.Intn(3) == 0 {
+		backlog = 1 + w.rng.Intn(len(files))
+		old = time.Duration(1+w.rng.Intn(72))*time.Hour + time.Duration(w.rng.Intn(3600))*time.Second
+	}
 	for i, f := range files {
-		w.writeSource(f.Name, randBytes(w.rng, f.Size), base.Add(time.Duration(i)*time.Minute))
+		mt := base.Add(time.Duration(i) * time.Minute)
+		if i < backlog {
+			mt = mt.Add(-old)
+		}
+		w.writeSource(f.Name, randBytes(w.rng, f.Size), mt)
 	}
 }
 
@@ -151,6 +162,12 @@ func runC16(c *Ctx) {
 				files = genFiles(srng, nfiles, 3*conf.PayloadSize)
 			}
 			faults = []fault{{Kind: []string{fRefuse, fUnavailable, fCutBefore}[srng.Intn(3)], Nth: 1 + srng.Intn(3), K: 0, Repeat: 100000}}
+			if srng.Intn(2) == 0 {
+				// ... or the outage is there from the start: the start-up recovery request
+				// ("which partial files do you hold") fails over and over, and the stop
+				// arrives before the sender has got past it
+				faults = []fault{{Kind: fPartialsErr, Nth: 1, Repeat: 100000}}
+			}
 			immediateOnly = true
 		}
 		// reference run: count boundary actions of an uninterrupted one-shot run
